@@ -249,6 +249,8 @@ func checkC18(p *load.Program, r *kit.Report) {
 }
 
 func checkC19(p *load.Program, r *kit.Report) {
+	r.Rule("SPLIT-ABOVE", "inside the back-off loop a chain-split entry is inserted only when the height about to be listed is strictly below split.Height", 1)
+	checkSplitAboveListedHeight(p, r, "SPLIT-ABOVE")
 	r.Rule("BASE-LABEL", "the locator entry of a side branch carries the height its hash was read at", 1)
 	checkSideBaseLabel(p, r, "BASE-LABEL")
 	importRules(p, r, "C09", "a peer's reply connects to a locator hash only if that hash is found at its true height: the labels Truncate/Connect/Consolidate write when Clean rebuilds the branches", 11, nil, "HEIGHT-LABEL")
